@@ -14,6 +14,8 @@ enum FT {
     U8,
     F32,
     T,
+    /// `&'a f32`: a non-Eq field type that mentions a LIFETIME parameter of the item
+    RefF32,
 }
 /// what one of the two attributes (`eq`, `ord`) on a field carries
 #[derive(Clone, Copy, PartialEq, Eq, Debug)]
@@ -66,6 +68,7 @@ fn attr_text(ft: FT, fa: FA) -> Option<String> {
     let (eq_key, non_eq_key) = match ft {
         FT::U8 => ("$ as u16", "$ as f32"),
         FT::F32 => ("$.to_bits()", "$ * 2.0"),
+        FT::RefF32 => ("$.to_bits()", "*$ * 2.0"),
         FT::T => ("", ""),
     };
     let one = |name: &str, a: A1| -> Option<String> {
@@ -106,18 +109,18 @@ fn field_rejects(ft: FT, fa: FA, gmode: GMode) -> bool {
     }
     match ft {
         FT::U8 => false,
-        FT::F32 => true,
+        FT::F32 | FT::RefF32 => true,
         FT::T => gmode != GMode::Default,
     }
 }
 
 fn gen(ch: &mut Ch, thorough: bool) -> Option<Case> {
-    let container = ch.pick(3); // 0 tuple struct, 1 named struct, 2 enum variant
+    let container = ch.pick(4); // 0 tuple struct, 1 named struct, 2 enum variant, 3 second of two field-carrying variants
     let n = 1 + ch.pick(if thorough { 3 } else { 2 });
     let mut fields = Vec::new();
     let mut dev = 0;
     for _ in 0..n {
-        let ft = *ch.of(&[FT::U8, FT::F32, FT::T]);
+        let ft = *ch.of(&[FT::U8, FT::F32, FT::T, FT::RefF32]);
         let mut fa = FA { eq: *ch.of(&A1S), ord: *ch.of(&A1S), peq: A1::None, pord: A1::None };
         let custom = |a: A1| matches!(a, A1::KeyEq | A1::KeyNonEq | A1::By);
         if ft != FT::T && fa.eq != A1::Ignore && fa.ord != A1::Ignore && (custom(fa.eq) || custom(fa.ord)) {
@@ -140,6 +143,13 @@ fn gen(ch: &mut Ch, thorough: bool) -> Option<Case> {
         fields.push((ft, fa));
     }
     let has_t = fields.iter().any(|f| f.0 == FT::T);
+    // the lifetime-mentioning field type only on its own or next to plain u8 fields without attributes
+    if fields.iter().any(|f| f.0 == FT::RefF32) && (has_t || n == 3 || fields.iter().any(|f| f.0 != FT::RefF32 && (f.0 != FT::U8 || f.1 != FA::NONE))) {
+        return None;
+    }
+    if container == 3 && (has_t || n == 3) {
+        return None;
+    }
     let gmode = if has_t { *ch.of(&[GMode::Default, GMode::Empty, GMode::PartialEqOnly]) } else { GMode::Default };
     let with_partial_eq = ch.flag();
     // a co-derived (conditional) PartialEq is only meaningful when Eq's impl carries the default bound
@@ -182,11 +192,13 @@ fn gen(ch: &mut Ch, thorough: bool) -> Option<Case> {
 
 fn program(c: &Case) -> (String, String) {
     let has_t = c.fields.iter().any(|f| f.0 == FT::T);
-    let g = if has_t { "<T>" } else { "" };
+    let has_lt = c.fields.iter().any(|f| f.0 == FT::RefF32);
+    let g = if has_t { "<T>" } else if has_lt { "<'a>" } else { "" };
     let fs: Vec<FieldDef> = c.fields.iter().map(|(ft, fa)| {
         let ty = match ft {
             FT::U8 => "u8",
             FT::F32 => "f32",
+            FT::RefF32 => "&'a f32",
             FT::T => "T",
         };
         let f = FieldDef::tuple(ty).attr(&attr_text(*ft, *fa).unwrap());
@@ -195,7 +207,9 @@ fn program(c: &Case) -> (String, String) {
     let item = match c.container {
         0 => ItemDef::strukt("X", g, FieldsDef::of(false, fs)),
         1 => ItemDef::strukt("X", g, FieldsDef::of(true, fs)),
-        _ => ItemDef::enm("X", g, vec![VariantDef::new("A", FieldsDef::Unit), VariantDef::new("B", FieldsDef::of(false, fs))]),
+        2 => ItemDef::enm("X", g, vec![VariantDef::new("A", FieldsDef::Unit), VariantDef::new("B", FieldsDef::of(false, fs))]),
+        // an earlier variant with the same number of (Eq) fields at the same positions
+        _ => ItemDef::enm("X", g, vec![VariantDef::new("A", FieldsDef::of(false, (0..c.fields.len()).map(|_| FieldDef::tuple("u8")).collect())), VariantDef::new("B", FieldsDef::of(false, fs))]),
     };
     let eq_arg = match c.gmode {
         GMode::Default => "Eq".to_string(),
@@ -270,6 +284,39 @@ pub fn run(ctx: &Ctx, rep: &mut Report) {
             rep.sample(json!({"program": progs[i].1, "predicted": if reject { "refused" } else { "compiles" }, "rustc_errors": r.codes()}));
         }
     }
+    // "can never silently become Eq": an accepted type with a co-derived `==` and a float field is executed on
+    // NaN values - `==` must be reflexive on them (the float is ignored, compared by `by`, or through an Eq key)
+    let probe_idx: Vec<usize> = (0..cases.len()).filter(|&i| !predicted[i] && cases[i].with_partial_eq && !cases[i].fields.iter().any(|f| f.0 == FT::T) && cases[i].fields.iter().any(|f| matches!(f.0, FT::F32 | FT::RefF32))).collect();
+    let probes: Vec<runner::Case> = probe_idx.iter().map(|&i| {
+        let c = &cases[i];
+        let vals: Vec<String> = c.fields.iter().map(|f| match f.0 { FT::U8 => "1u8", FT::F32 => "f32::NAN", FT::RefF32 => "&f32::NAN", FT::T => unreachable!() }.to_string()).collect();
+        let ctor = match c.container {
+            0 => format!("X({})", vals.join(", ")),
+            1 => format!("X {{ {} }}", vals.iter().enumerate().map(|(k, v)| format!("{}: {v}", fname(k))).collect::<Vec<_>>().join(", ")),
+            _ => format!("X::B({})", vals.join(", ")),
+        };
+        runner::Case { code: format!("{}pub fn run() -> String {{ let v = {ctor}; let w = {ctor}; format!(\"{{}}{{}}\", v == v, v == w) }}\n", progs[i].0) }
+    }).collect();
+    let pres = if probes.is_empty() { Vec::new() } else { runner::run_cases(&probes, &runner::Opts::run("c17x")) };
+    for (k, &i) in probe_idx.iter().enumerate() {
+        let c = &cases[i];
+        let r = &pres[k];
+        rep.inner_evaluations += 1;
+        if !r.compiled() {
+            continue; // decided above
+        }
+        let out = r.output.clone().unwrap_or_default();
+        rep.outcome(&format!("reflexivity-on-NaN:{out}"));
+        if out != "truetrue" {
+            let mut atoms = BTreeSet::new();
+            atoms.insert(format!("entry={}", c.entry.name()));
+            for (ft, fa) in &c.fields {
+                atoms.insert(format!("field={:?}/{:?}", ft, fa));
+            }
+            rep.violation(Violation { symptom: "eq-type-compares-a-float".into(), atoms, what: format!("`{}` is Eq, but `==` is not reflexive on NaN field values (v == v, v == w: {out}): a float-like component takes part in equality", progs[i].1), detail: json!({"vector": c.vector, "tier": ctx.tier.name(), "program": probes[k].code, "observed": out}), standalone: Some(format!("mod case {{\n{}\n}}\nfn main() {{ assert_eq!(case::run(), \"truetrue\"); }}\n", probes[k].code)) });
+        }
+    }
+    rep.set("reflexivity_probes_executed", json!(probe_idx.len()));
     rep.set("rustc_invocations", json!(runner::STATS.rustc_invocations.load(std::sync::atomic::Ordering::Relaxed)));
     rep.set("rustc_rounds_max", json!(runner::STATS.rounds_max.load(std::sync::atomic::Ordering::Relaxed)));
 }
